@@ -14,7 +14,7 @@
 (* name the same parent twice).  Errors: 0 live, 1 Canceled, 2 DeadlineExceeded, 3 merged-cancel.             *)
 EXTENDS Integers, Sequences, FiniteSets, SequencesExt, TLC
 
-CONSTANTS Scope     \* "lts" | "mc" | "thorough" | "trace"
+CONSTANTS Scope     \* "lts" | "lts2" (thorough tier replay) | "mc" | "thorough" | "trace"
 VARIABLES cfg,
           base,     \* <<err of A, err of B>>
           mg,       \* sequence of <<primary ref, secondary ref, err>>
@@ -25,13 +25,11 @@ View == <<cfg, base, mg>>
 MCView == <<cfg, base, mg, called>>
 
 NB == 2
-NM == CASE Scope = "lts" -> 2 [] Scope = "mc" -> 3 [] Scope = "thorough" -> 4 [] Scope = "trace" -> 6
+NM == CASE Scope \in {"lts", "lts2"} -> 2 [] Scope = "mc" -> 2 [] Scope = "thorough" -> 3 [] Scope = "trace" -> 6
 (* impl: "std" = parents built with context.WithValue/WithDeadline/WithCancel; "fake" = a hand-written context.Context  *)
 (* whose deadline can be made to pass on demand (Expire).  da/db: 0 = no deadline, otherwise rank of the deadline.    *)
-Cfgs == IF Scope = "lts"
-          THEN {[impl |-> "fake", da |-> 1, db |-> 2], [impl |-> "std", da |-> 2, db |-> 1], [impl |-> "std", da |-> 0, db |-> 0],
-                [impl |-> "fake", da |-> 0, db |-> 2]}
-          ELSE [impl : {"std", "fake"}, da : 0..2, db : 0..2]
+Cfgs == CASE Scope \in {"lts", "lts2"} -> {[impl |-> "fake", da |-> 1, db |-> 2], [impl |-> "std", da |-> 0, db |-> 1]}
+          [] OTHER         -> [impl : {"std", "fake"}, da : 0..2, db : 0..2]
 
 Init == /\ cfg \in Cfgs /\ base = <<0, 0>> /\ mg = <<>> /\ called = {} /\ ev = [op |-> "reset", cfg |-> cfg]
 
@@ -71,10 +69,16 @@ Step(s, b2, m2, k) ==
   /\ base' = b2 /\ mg' = m2 /\ UNCHANGED cfg
   /\ ev' = [res |-> [k |-> k, newly |-> Newly(mg, m2)], st |-> Proj(cfg, b2, m2)] @@ s
 
+(* the quick replayed transition system is kept small: first merge of (A,B) or (B,A); the second one nests the first  *)
+(* (std parents: only with itself); lts2 has all pairs                                                              *)
+LtsPair(n, p, q) == IF n = 0 THEN <<p, q>> \in {<<1, 2>>, <<2, 1>>}
+                    ELSE <<p, q>> \in (IF cfg.impl = "fake" THEN {<<3, 2>>, <<1, 3>>, <<3, 3>>} ELSE {<<3, 3>>})
+
 Do(s) ==
   CASE s.op = "reset" -> /\ cfg' = s.cfg /\ base' = <<0, 0>> /\ mg' = <<>> /\ called' = {} /\ ev' = s
     [] s.op = "Merge" ->         \* MergeContexts(ctx s.p, ctx s.q): done at once iff a parent is done already
          /\ Len(mg) < NM /\ s.p \in 1..(NB + Len(mg)) /\ s.q \in 1..(NB + Len(mg)) /\ UNCHANGED called
+         /\ (Scope = "lts" => LtsPair(Len(mg), s.p, s.q))
          /\ LET E == {ErrOf(base, mg, s.p), ErrOf(base, mg, s.q)} \ {0} IN
             \E e \in (IF E = {} THEN {0} ELSE E) : Step(s, base, Append(mg, <<s.p, s.q, e>>), Len(mg) + 1)
     [] s.op = "Cancel" ->        \* the cancel function of base context s.x (idempotent)
